@@ -172,6 +172,7 @@ fn resolve(script: &[PStep], slots: &[Slot]) -> Vec<Step> {
             PStep::CallAddr(s) => addr0(*s).map(|a| Step::CallAddr(a, log::uid())).unwrap_or(Step::Yield),
             PStep::WeakSelf => Step::WeakSelf,
             PStep::TryFromRegistry(k) => Step::TryFromRegistry(*k),
+            PStep::ExportWeakSender => Step::ExportWeakSender,
         })
         .collect()
 }
@@ -522,6 +523,18 @@ async fn exec_op(env: &Arc<Env>, c: u16, i: u16, op: Op, slots: &mut Vec<Slot>) 
                 drop(old);
             }
             end(c, i, Res::Ok);
+        }
+        Op::ImportWeakSender { slot } => {
+            let (tag, hk) = (tag_of(slots, slot), hk_of(slots, slot));
+            begin(c, i, OpK::ToWeakSender, hk, Path::NA, tag, 0, slot, 1);
+            let r = match crate::actors::take_exported(tag) {
+                Some(ws) => Res::Handle { slot: push(slots, Slot::mk(H::WSender(ws), tag, c)), some: true },
+                None => {
+                    push(slots, Slot::empty());
+                    Res::Skipped
+                }
+            };
+            end(c, i, r);
         }
         Op::DropPanicking { slot } => {
             let (tag, hk) = (tag_of(slots, slot), hk_of(slots, slot));
